@@ -62,7 +62,7 @@ theorem ringFwd_nodup (s : LMQR α) (h : RingInv s) : (s.ringFwd.map (·.2)).Nod
 theorem scaleR_idx (s : LMQR α) (c : α) :
     (s.scaleR c).qIdx = s.qIdx ∧ (s.scaleR c).rStart = s.rStart ∧ (s.scaleR c).rEnd = s.rEnd ∧
     (s.scaleR c).n = s.n ∧ (s.scaleR c).m = s.m ∧ (s.scaleR c).Q = s.Q := by
-  simp [LMQR.scaleR, lmqrScaleEig]
+  simp [LMQR.scaleR, LMQR.updateEig]
 
 theorem scaleR_ring (s : LMQR α) (h : RingInv s) (c : α) : RingInv (s.scaleR c) := by
   obtain ⟨e1, e2, e3, e4, e5, e6⟩ := scaleR_idx s c
@@ -80,7 +80,7 @@ theorem scaleR_getR (s : LMQR α) (h : RingInv s) (c : α) {i k : ℕ} (hk : k <
   · have hi : i < s.m := by have := h.cap; omega
     have hσ : s.slot k < s.m := Nat.mod_lt _ h.mpos
     have : (s.scaleR c).R.get i (s.slot k) = scaleLoop c s.ringFwd s.R.get i (s.slot k) := by
-      simp only [LMQR.scaleR, lmqrScaleEig]
+      simp only [LMQR.scaleR, LMQR.updateEig]
       rw [Mat.get_ofFn_lt _ hi hσ]
     rw [this, scaleLoop_eq c _ _ (ringFwd_nodup s h), if_pos]
     refine ⟨(k, s.slot k), ?_, rfl, hik⟩
